@@ -133,7 +133,9 @@ def run(ctx, canary=False):
                 elif any(len(order[i][0]) > len(order[i + 1][0]) for i in range(len(order) - 1)):
                     bad.append("message_order does not send from smaller regions first")
         if bad:
-            ctx.violation("RegionGraph construction differs from RegionGraph.tla: " + "; ".join(bad[:3]), info, {"kind": "construction"})
+            # the construction is a model-level matter: C16 itself (normalisation, exactness) is decided numerically below on the
+            # very same clique sets, so a different but working construction is a deviation, not a violation
+            ctx.deviation("RegionGraph construction differs from RegionGraph.tla: " + "; ".join(bad[:3]), info)
     ctx.extra["clique_sets"] = len(bycl)
 
     # ---------------------------------------------------------------- exactness: GBP on RIP structures
